@@ -156,10 +156,13 @@ def run_program(build, prog, route, workdir, qlevel=None, extra_args=(), timeout
     raise ValueError(route)
 
 
-def run_many(build, jobs, workdir, nproc=None, timeout=60):
+def run_many(build, jobs, workdir, nproc=None, timeout=60, timing=None):
     """jobs: list of (prog, route, qlevel, extra_args). Returns list of results in order.
-    Jobs of route 'java' are emitted in parallel, compiled by javac in batches of JAVA_BATCH, and run in parallel."""
+    Jobs of route 'java' are emitted in parallel, compiled by javac in batches (at most JAVA_BATCH units per javac, spread
+    over the processors), and run in parallel.  timing: optional dict that receives the wall time of the stages."""
+    import time
     results = [None] * len(jobs)
+    t0 = time.time()
     with concurrent.futures.ThreadPoolExecutor(max_workers=nproc or vlib.NCPU) as ex:
         futs = {i: ex.submit(run_program, build, p, route, workdir, q, xa, timeout)
                 for i, (p, route, q, xa) in enumerate(jobs) if route != "java"}
@@ -170,16 +173,22 @@ def run_many(build, jobs, workdir, nproc=None, timeout=60):
         for i in jidx:       # a unit name must be unique inside a class directory
             if units.setdefault(jj[i]["unit"], i) != i:
                 raise vlib.MachineryError("java route: two jobs share the unit name %s" % jj[i]["unit"])
-        batches = [jidx[k:k + JAVA_BATCH] for k in range(0, len(jidx), JAVA_BATCH)]
+        t1 = time.time()
+        per = min(JAVA_BATCH, max(6, -(-len(jidx) // (nproc or vlib.NCPU))))
+        batches = [jidx[k:k + per] for k in range(0, len(jidx), per)]
         cf = [ex.submit(java_compile, [jj[i] for i in b], os.path.join(workdir, "jclasses", "b%d_%d" % (n, os.getpid())))
               for n, b in enumerate(batches)]
         for f in cf:
             f.result()
+        t2 = time.time()
         rf = {i: ex.submit(java_run, jj[i], timeout) for i in jidx}
         for i, f in futs.items():
             results[i] = f.result()
         for i, f in rf.items():
             results[i] = f.result()
+    if timing is not None and jidx:
+        for k, v in (("emit_s", t1 - t0), ("javac_s", t2 - t1), ("java_and_rest_s", time.time() - t2)):
+            timing[k] = round(timing.get(k, 0) + v, 1)
     return results
 
 
